@@ -132,7 +132,10 @@ def run(ctx):
     import matrix
     seen = {}
     for run in matrix.runs(ctx):
-        if run["error"] or (run.get("t") or 0) != 0 or "fed in again" in run["config"] or len(run["rows"]) != len(run["given"]):
+        if not run["error"] and len(run["rows"]) != len(run["given"]):
+            ctx.fail("rows-lost-in-context", {"context": "configuration matrix: " + run["config"], "inputs": run["given"]}, {"rows": len(run["rows"])})
+            continue
+        if run["error"] or (run.get("t") or 0) != 0 or "fed in again" in run["config"]:
             continue
         ctx.count("contexts", "matrix_runs")
         for g, r in zip(run["given"], run["rows"]):
